@@ -34,7 +34,7 @@ from ..evidence import Run, canon_hash
 PID = "C15"
 SHARDS = {"quick": 6, "thorough": 16}
 N = {"quick": 1400, "thorough": 80000}
-SHARD_TIMEOUT = {"quick": 300, "thorough": 1700}
+SHARD_TIMEOUT = {"quick": 900, "thorough": 2400}
 
 
 def new_run():
@@ -730,19 +730,29 @@ def run(run, ctx):
 
 
 def finalize(run, ctx):
-    q = ctx.tier == "quick"
-    for name, m in [("RECV:evaluated", 350), ("KEEP:evaluated", 300),
-                    ("KEEP:untouched_column", 500), ("MIRROR:evaluated", 250),
-                    ("MIRROR:accepted", 200), ("REJECT:evaluated", 60),
-                    ("INVERSE:evaluated", 60), ("INVERSE:remove-after-add", 10),
-                    ("INVERSE:rename-back", 10), ("INVERSE:reset-after-set", 5),
-                    ("INVERSE:select-all", 15), ("INVALID:evaluated", 100),
-                    ("ATTR:set_index:evaluated", 100), ("ATTR:reset_index:evaluated", 50),
-                    ("COMPONENT:evaluated", 5),
-                    ("schema:pandas", 100), ("schema:polars", 50),
-                    ("column_attr_set:drop_invalid_rows", 50),
-                    ("column_attr_set:metadata", 100)]:
-        run.floors[name] = m if q else m * 10
+    # floors ~ 1/4 of what the unchanged tree gives (quick: 1400 cases)
+    k = 1 if ctx.tier == "quick" else 30
+    for name, m in [("RECV:evaluated", 900), ("KEEP:evaluated", 800),
+                    ("KEEP:untouched_column", 1600), ("KEEP:renamed_column", 100),
+                    ("KEEP:updated_column_other_attrs", 380),
+                    ("KEEP:existing_level", 20), ("KEEP:remaining_level", 5),
+                    ("MIRROR:evaluated", 800), ("MIRROR:accepted", 750),
+                    ("MIRROR:set_index", 90), ("MIRROR:reset_index", 30),
+                    ("MIRROR:add_columns", 80), ("MIRROR:remove_columns", 70),
+                    ("MIRROR:select_columns", 80), ("MIRROR:rename_columns", 80),
+                    ("MIRROR:update_column", 160), ("MIRROR:update_columns", 160),
+                    ("REJECT:evaluated", 300), ("INVERSE:evaluated", 500),
+                    ("INVERSE:remove-after-add", 80), ("INVERSE:rename-back", 80),
+                    ("INVERSE:reset-after-set", 70), ("INVERSE:select-all", 250),
+                    ("INVALID:evaluated", 250),
+                    ("ATTR:set_index:evaluated", 1300),
+                    ("ATTR:reset_index:evaluated", 350),
+                    ("COMPONENT:evaluated", 25),
+                    ("schema:pandas", 200), ("schema:polars", 90),
+                    ("column_attr_set:drop_invalid_rows", 140),
+                    ("column_attr_set:metadata", 600),
+                    ("column_attr_set:parsers", 30)]:
+        run.floors[name] = m * k
 
 
 def replay(path):
